@@ -675,6 +675,11 @@ def _schedule_rewrites(
             # In order to not replace anything, we need to make sure the range is empty.
             before = core.Range(before.start, before.start)
 
+            if isinstance(after, ast.AST) and getattr(after, "lineno", 0) > len(source.splitlines()):
+                # Code that is appended after the last line has no indentation to inherit
+                after = textwrap.indent(core.unparse(after), " " * getattr(after, "col_offset", 0))
+                after = ("" if source.endswith("\n") else "\n") + after + "\n"
+
         if after is None:
             after = ""
         return (before, after, transaction)
